@@ -71,15 +71,25 @@ theorem lex_fieldMid (acc : Str) (toks : List Tok) :
       ⟨.top, .name "ws".toList :: .lit "::".toList :: .lit acc.reverse :: toks⟩ := by
   simp [lexStep, lexAction, lexTop, isWordChar, isLower, isUpper, isDigit]
 
+/-- `text`, pasted between the quotes of a literal, is read as the characters `tok` -/
+def LitText (text tok : Str) : Prop :=
+  ∀ (acc : Str) (toks : List Tok), lexRun true ⟨.str acc .none, toks⟩ text = ⟨.str (tok.reverse ++ acc) .none, toks⟩
+
+theorem litText_plain (v : Str) (h : ∀ c ∈ v, c ≠ '"' ∧ c ≠ '\\') : LitText v v :=
+  fun acc toks => lexRun_str_plain true v acc toks h
+
+theorem litText_esc (v : Str) : LitText (v.flatMap esc1) v :=
+  fun acc toks => lexRun_str_esc true v acc toks
+
 /-- **field rule line**  `rule ::= "NAME" "::" ws fragment` -/
-theorem lineOK_field (r fname frag : Str) (frefs : List Str) (hne : r ≠ [])
-    (hw : ∀ c ∈ r, isWordChar true c = true) (hf : ∀ c ∈ fname, c ≠ '"' ∧ c ≠ '\\')
+theorem lineOK_field (r nameText nameTok frag : Str) (frefs : List Str) (hne : r ≠ [])
+    (hw : ∀ c ∈ r, isWordChar true c = true) (hf : LitText nameText nameTok)
     (hfrag : FragOK frag frefs) :
-    LineOK (r ++ " ::= \"".toList ++ fname ++ "\" \"::\" ws ".toList ++ frag) [r] (frefs ++ ["ws".toList]) := by
+    LineOK (r ++ " ::= \"".toList ++ nameText ++ "\" \"::\" ws ".toList ++ frag) [r] (frefs ++ ["ws".toList]) := by
   obtain ⟨fts, hlex, top', hctl, hnl, hce⟩ := hfrag
-  refine ⟨.nl :: (fts ++ [.name "ws".toList, .lit "::".toList, .lit fname, .define, .name r]), fun toks => ?_, fun N R E => ?_⟩
+  refine ⟨.nl :: (fts ++ [.name "ws".toList, .lit "::".toList, .lit nameTok, .define, .name r]), fun toks => ?_, fun N R E => ?_⟩
   · rw [List.append_assoc, List.append_assoc, List.append_assoc, lexRun_append, lex_ruleHead r hne hw,
-      lexRun_append, lexRun_str_plain true fname [] _ hf, lexRun_append, lex_fieldMid, hlex]
+      lexRun_append, hf, lexRun_append, lex_fieldMid, hlex]
     simp
   · simp only [List.reverse_cons, List.reverse_append, List.reverse_nil, List.nil_append, List.cons_append,
       List.append_assoc, cRun_cons, cRun_append, cRun_nil]
@@ -239,15 +249,15 @@ theorem lineOK_refs (headName : Str) (head : Str) (names : List Str) (hne : name
     rw [this]
     simp [cStep, cAction, cBody, AFrame.fresh, AFrame.closeEmpty, cEndRule]
 
-/-! ### a literal whose middle part is pasted unescaped:  `HEAD"pre` ++ u ++ `post"` -/
+/-! ### a literal whose middle part is pasted:  `HEAD"pre` ++ text ++ `post"` -/
 
-theorem lineOK_pastedLiteral (headName head pre u post : Str)
-    (hu : ∀ c ∈ u, c ≠ '"' ∧ c ≠ '\\')
+theorem lineOK_pastedLiteral (headName head pre uText uTok post : Str)
+    (hu : LitText uText uTok)
     (hhead : ∀ toks, lexRun true ⟨.top, toks⟩ head = ⟨.str pre.reverse .none, .define :: .name headName :: toks⟩)
     (hpost : ∀ acc toks, lexRun true ⟨.str acc .none, toks⟩ (post ++ ['\n']) = ⟨.top, .nl :: .lit (acc.reverse ++ post.dropLast) :: toks⟩) :
-    LineOK (head ++ u ++ post) [headName] [] := by
-  refine ⟨[.nl, .lit ((u.reverse ++ pre.reverse).reverse ++ post.dropLast), .define, .name headName], fun toks => ?_, fun N R E => ?_⟩
-  · rw [List.append_assoc, List.append_assoc, lexRun_append, hhead, lexRun_append, lexRun_str_plain true u _ _ hu, hpost]
+    LineOK (head ++ uText ++ post) [headName] [] := by
+  refine ⟨[.nl, .lit ((uTok.reverse ++ pre.reverse).reverse ++ post.dropLast), .define, .name headName], fun toks => ?_, fun N R E => ?_⟩
+  · rw [List.append_assoc, List.append_assoc, lexRun_append, hhead, lexRun_append, hu, hpost]
     simp
   · simp [cStep, cAction, cBody, AFrame.push, AFrame.fresh, AFrame.closeEmpty, cEndRule]
 
